@@ -444,3 +444,47 @@ Proof.
   - destruct (marshal inner), out; intro H; try discriminate; apply bytes_eqb_eq in H; subst; reflexivity.
   - intros <-. destruct (marshal inner); apply bytes_eqb_refl.
 Qed.
+
+(* ------------------------------------------------------------------ *)
+(* sequences of calls: [marshal] is a function of the inner result alone (no
+   state), so the n-th output of a sequence is the frame of the n-th inner
+   encoding whatever was marshalled before or after, and stays so *)
+Lemma marshal_functional : forall a b, a = b -> marshal a = marshal b.
+Proof. intros a b ->. reflexivity. Qed.
+
+Lemma forallb_repeat : forall A (f : A -> bool) x n, f x = true -> forallb f (repeat x n) = true.
+Proof. intros A f x n H. induction n; cbn [repeat forallb]; [reflexivity|]. rewrite H, IHn. reflexivity. Qed.
+
+Lemma forallb_map_true : forall A B (g : A -> B) (f : B -> bool) l,
+  (forall x, f (g x) = true) -> forallb f (map g l) = true.
+Proof. intros A B g f l H. induction l; cbn [map forallb]; [reflexivity|]. rewrite H, IHl. reflexivity. Qed.
+
+Lemma C19_seq_ok_model : forall inners k, C19_seq_ok (model_seq inners k) = true.
+Proof.
+  intros inners k. unfold C19_seq_ok, model_seq. apply forallb_map_true. intro p.
+  unfold C19_call_ok. cbn [sc_out sc_inner sc_later]. rewrite marshal_frame.
+  change ([xfd; x7f] ++ le32 (crc32c p) ++ p) with (frame p). rewrite <- marshal_ok_frame.
+  rewrite C19_ok_marshal, C19_fields_ok_marshal, verify_frame_marshal. cbn [andb].
+  apply forallb_repeat. apply C19_ok_marshal.
+Qed.
+
+Lemma accept_seq_model : forall inners k,
+  accept_seq_values (model_seq inners k) = true /\ seq_stable (model_seq inners k) = true.
+Proof.
+  intros inners k. unfold accept_seq_values, seq_stable, model_seq. split.
+  - apply forallb_map_true. intro p. cbn [sc_out sc_inner]. apply accept_marshal.
+  - apply forallb_map_true. intro p. cbn [sc_out sc_later]. rewrite marshal_frame.
+    change ([xfd; x7f] ++ le32 (crc32c p) ++ p) with (frame p). rewrite <- marshal_ok_frame.
+    apply forallb_repeat. apply bytes_eqb_refl.
+Qed.
+
+(* a later reading that passes the monitor is byte-for-byte the value returned *)
+Lemma C19_call_ok_stable : forall c, C19_call_ok c = true ->
+  forall o, sc_out c = Ok o -> forall l, In l (sc_later c) -> l = o.
+Proof.
+  intros c H o Ho l Hl. unfold C19_call_ok in H. rewrite Ho in H.
+  repeat (apply andb_true_iff in H; destruct H as [H ?]).
+  apply C19_ok_iff in H.
+  match goal with F : forallb _ _ = true |- _ => rewrite forallb_forall in F; apply F in Hl end.
+  apply C19_ok_iff in Hl. congruence.
+Qed.
